@@ -148,9 +148,52 @@ fn c06(_ctx: &Ctx, r: &mut Report) {
     }
 }
 
+/// C19: paths the macro owns (`entrait::..`, `core::..`, `mockall::..`, `unimock::..`) that are written without the
+/// leading `::` - a local item of that name in the invoking scope would capture them. Token-level scan of a whole
+/// expansion; the inputs it is used on contain no such path themselves.
+pub fn relative_macro_paths(ts: proc_macro2::TokenStream, found: &mut Vec<String>) {
+    use proc_macro2::TokenTree;
+    let toks: Vec<TokenTree> = ts.into_iter().collect();
+    let colon = |t: Option<&TokenTree>| matches!(t, Some(TokenTree::Punct(p)) if p.as_char() == ':');
+    for i in 0..toks.len() {
+        match &toks[i] {
+            TokenTree::Group(g) => relative_macro_paths(g.stream(), found),
+            TokenTree::Ident(id) if ["entrait", "core", "std", "alloc", "mockall", "unimock"].contains(&id.to_string().as_str()) => {
+                let followed = colon(toks.get(i + 1)) && colon(toks.get(i + 2));
+                let preceded = i >= 2 && colon(toks.get(i - 1)) && colon(toks.get(i - 2));
+                if followed && !preceded {
+                    let ctx: Vec<String> = toks[i.saturating_sub(3)..(i + 6).min(toks.len())].iter().map(|t| t.to_string()).collect();
+                    found.push(ctx.join(" "));
+                }
+            }
+            _ => {}
+        }
+    }
+}
+
+/// receiver shapes x every way of delegating: nothing but the absolute-path scan (the exact oracles of c06 / c07 enumerate
+/// `&self` / `&mut self` / `self: &Self` receivers only)
+fn absolute_paths_over_receivers(r: &mut Report) {
+    for decl in ["fn f(self, a: i32) -> i32;", "fn f(&self);", "fn f(&mut self, a: i32);", "async fn f(&self) -> u8;", "async fn f(self) -> u8;", "fn f(self: &Self);", "fn f<'a>(&'a self) -> &'a str;", "fn f(self: Box<Self>);"] {
+        for sel in ["", "delegate_by = Self", "delegate_by = ref", "delegate_by = Borrow", "TrImpl, delegate_by = DelegateTr", "TrImpl, delegate_by = ref", "TrImpl, delegate_by = Borrow", "mockall", "unimock, mock_api = TrMock", "TrImpl, delegate_by = DelegateTr, ?Send"] {
+            let item = format!("pub trait Tr {{ {} fn g(&self); }}", decl);
+            let input = format!("#[entrait({})] {}", sel, item);
+            r.guarded(&input, |r| {
+                let out = expand(Variant::Entrait, sel, &item);
+                let mut found = vec![];
+                relative_macro_paths(out, &mut found);
+                for f in found {
+                    r.fail("relative-macro-path", &input, format!("a path owned by the macro is written without its leading `::`: `.. {} ..`", f));
+                }
+            });
+        }
+    }
+}
+
 fn c07(_ctx: &Ctx, r: &mut Report) {
-    r.domain = "delegated traits (the shapes of c06) x {static: delegate_by = DelegateTr, dynamic: delegate_by = ref, dynamic: delegate_by = Borrow}; impl blocks `#[entrait] impl TrImpl for X` / `#[entrait(ref)]` / `#[entrait(dyn)]` with 1..3 fns, 0..2 further dependency bounds, sync and async".into();
+    r.domain = "delegated traits (the shapes of c06) x {static: delegate_by = DelegateTr, dynamic: delegate_by = ref, dynamic: delegate_by = Borrow}; impl blocks `#[entrait] impl TrImpl for X` / `#[entrait(ref)]` / `#[entrait(dyn)]` with 1..3 fns, 0..2 further dependency bounds, sync and async; plus 8 receiver shapes (by value, `&self`, `&mut self`, `self: &Self`, `self: Box<Self>`, explicit lifetime, async) x 10 delegation / mock option sets for the absolute-path scan".into();
     r.bound = "exhaustive over the listed shapes".into();
+    absolute_paths_over_receivers(r);
     for tc in trait_cases() {
         if tc.generics.contains("'x") {
             continue;
